@@ -47,7 +47,7 @@ def cut(stream: bytes, cuts) -> list[bytes]:
 
 
 def as_type(b: bytes, k: int):
-    return (bytes(b), bytearray(b), memoryview(b))[k % 3]
+    return (bytes(b), bytearray(b), memoryview(bytearray(b)), memoryview(b))[k % 4]
 
 
 def expected_per_chunk(frames, chunks):
@@ -143,7 +143,17 @@ def run_impl(frames, tail, cuts, tyk):
     per = []
     for i, c in enumerate(chunks):
         before = len(conn.delivered)
-        r = fh.deliver(h, conn, tr, as_type(c, tyk + i))
+        obj = as_type(c, tyk + i)
+        r = fh.deliver(h, conn, tr, obj)
+        # a receiver may reuse its read buffer for the next read: scribble over the caller's mutable object
+        # (the helper must have copied what it retains)
+        if isinstance(obj, bytearray):
+            obj[:] = b"\xee" * len(obj)
+            obj += b"\xee"
+        elif isinstance(obj, memoryview):
+            base = obj.obj
+            if isinstance(base, bytearray):
+                base[:] = b"\xee" * len(base)
         per.append((conn.delivered[before:], fh.err_class(conn.errors[0]) if conn.errors else "none", r))
     return chunks, per
 
